@@ -13,3 +13,5 @@ def find(ctx, oblig, diag):
     if res.get("violates"):
         res["source"] = "boundary search replayed on the real crate"
     return res
+
+standing = find
